@@ -5,7 +5,7 @@
  * RGB[_ALPHA] = 3 (4) samples per pixel; tuples in row-major order; property C06: a gray pixel decodes to (v,v,v[,a]);
  * class Image keeps 3 (4 with alpha) samples of channel_width bits per pixel, get_data_size() bytes in all):
  *   success  => members == header values; the buffer holds w*h*(3+alpha) samples; exactly w*h*channels samples were consumed;
- *               pixel g_P (ghost: any pixel) == (v,v,v[,a]) of ITS samples in the file / == its 3 (4) samples for colour
+ *               channel g_c of pixel g_P (ghosts: any channel of any pixel) == the gray (channel 3: alpha) sample of THAT pixel in the file / == its own sample for colour
  *   io_error => no member of *this changed (truncated file rejected without side effects)
  */
 #ifndef C06_PPM_H
@@ -25,34 +25,25 @@ typedef uint64_t C06_SAMPT;
 #define C06_SAMP(p, i) (((const C06_SAMPT*)(p))[i])
 
 size_t g_P;        /* ghost pixel number y*w + x */
-size_t g_c;        /* ghost channel (colour files) */
-C06_SAMPT g_v;     /* the file's gray (or channel g_c) sample of pixel g_P */
-C06_SAMPT g_a;     /* the file's alpha sample of pixel g_P */
+size_t g_c;        /* ghost channel 0..2 (3 with alpha) of that pixel in memory */
+C06_SAMPT g_v;     /* the sample of the FILE that the format assigns to channel g_c of pixel g_P */
 
 #define C06_D(alpha) (3 + (size_t)(alpha))             /* samples per pixel in memory */
 #if C06_GRAY
+/* PGM / PAM GRAYSCALE[_ALPHA]: tuple = (gray[, alpha]); channels 0..2 of the pixel take the gray sample, channel 3 the alpha sample */
 #define C06_S(alpha) (1 + (size_t)(alpha))             /* samples per pixel in the file */
 #define C06_FORMAT Format_GRAYSCALE_PPM
-#define C06_GHOST_AFTER_READ(raw)                                   \
-  {                                                                 \
-    g_v = C06_SAMP(raw, g_P * C06_S(new_has_alpha));                \
-    if (new_has_alpha) g_a = C06_SAMP(raw, g_P * C06_S(new_has_alpha) + 1); \
-  }
-#define C06_PPM_DONE(self)                                                              \
-  (C06_SAMP((self)->data.raw, g_P * C06_D((self)->has_alpha) + 0) == g_v &&             \
-   C06_SAMP((self)->data.raw, g_P * C06_D((self)->has_alpha) + 1) == g_v &&             \
-   C06_SAMP((self)->data.raw, g_P * C06_D((self)->has_alpha) + 2) == g_v &&             \
-   (!(self)->has_alpha || C06_SAMP((self)->data.raw, g_P * 4 + 3) == g_a))
-#define C06_PPM_INTACT(self)                                                            \
-  (C06_SAMP((self)->data.raw, g_P * C06_S((self)->has_alpha)) == g_v &&                 \
-   (!(self)->has_alpha || C06_SAMP((self)->data.raw, g_P * 2 + 1) == g_a))
+#define C06_SRC_INDEX(alpha) (g_P * C06_S(alpha) + (g_c == 3 ? 1 : 0))
 #else
+/* PPM / PAM RGB[_ALPHA]: tuple = (r, g, b[, a]) */
 #define C06_S(alpha) (3 + (size_t)(alpha))
 #define C06_FORMAT Format_COLOR_PPM
-#define C06_GHOST_AFTER_READ(raw) { g_v = C06_SAMP(raw, g_P * C06_S(new_has_alpha) + g_c); }
-#define C06_PPM_DONE(self) (C06_SAMP((self)->data.raw, g_P * C06_D((self)->has_alpha) + g_c) == g_v)
-#define C06_PPM_INTACT(self) C06_PPM_DONE(self)
+#define C06_SRC_INDEX(alpha) (g_P * C06_S(alpha) + g_c)
 #endif
+/* ghost statement placed right after the read: remember the file's sample (one typed read; the spec index comes from the format) */
+#define C06_GHOST_AFTER_READ(raw) { g_v = C06_SAMP(raw, C06_SRC_INDEX(new_has_alpha)); }
+#define C06_PPM_DONE(self) (C06_SAMP((self)->data.raw, g_P * C06_D((self)->has_alpha) + g_c) == g_v)
+#define C06_PPM_INTACT(self) (C06_SAMP((self)->data.raw, C06_SRC_INDEX((self)->has_alpha)) == g_v)
 
 /* loop invariant of the expansion: pixels numbered >= from are expanded, the samples of the others are still where the file put them */
 #define C06_PPM_INV(self, from) \
@@ -65,7 +56,7 @@ __CPROVER_requires(verif_exc == 0 && g_fpos == 0)
 __CPROVER_requires(1 <= new_width && new_width <= C06_DIM && 1 <= new_height && new_height <= C06_DIM)
 __CPROVER_requires(new_channel_width == C06_CW && format == C06_FORMAT)
 __CPROVER_requires(g_P < new_width * new_height && g_c < C06_D(new_has_alpha))
-__CPROVER_assigns(verif_exc, g_fpos, g_reads, g_v, g_a)
+__CPROVER_assigns(verif_exc, g_fpos, g_reads, g_v)
 __CPROVER_assigns(self->width, self->height, self->has_alpha, self->channel_width, self->max_value, self->data.raw)
 /* which exceptions */
 __CPROVER_ensures(verif_exc == 0 || verif_exc == EXC_io_error || verif_exc == EXC_bad_alloc)
